@@ -685,6 +685,20 @@ def f1(cx):
     # F-2 sorted insertion
     ins = [c for c in own_nodes(f) if isinstance(c, ast.Call) and isinstance(c.func, ast.Attribute) and _is_self_chunks(c.func.value) and c.func.attr in ("append", "insert")]
     cx.need(len(ins) >= 1, "free: no insertion into self.chunks")
+    # The shape-specific diagnostics F-2/F-3 apply to the known skeleton only (append-or-scan insertion, running-
+    # predecessor merge loop).  Any other shape is decided as a whole by rule FM (order-type abstract
+    # interpretation of free()), which does not depend on how the code is written.
+    def _known_insert(c):
+        if c.func.attr == "append":
+            return True
+        loops = fl.loops_at(c)
+        if not loops:
+            return False
+        lp = loops[-1]
+        return isinstance(lp.iter, ast.Call) and call_name(lp.iter) == "enumerate" and bool(lp.iter.args) and _is_self_chunks(lp.iter.args[0]) and isinstance(lp.target, ast.Tuple) and len(lp.target.elts) == 2
+    if not all(_known_insert(c) for c in ins):
+        cx.note(f, construct="free: insertion has another shape than append / `for i, ch in enumerate(self.chunks): if offset <= ch.start: insert; break`", detail="decided by rule FM")
+        ins = []
     LAST = Poly.atom("self.chunks[-1].start")
     append_negated = None
     loop_test = None
@@ -752,7 +766,17 @@ def f1(cx):
                  bad_detail="a freed region starting exactly at the last chunk's start is neither appended nor inserted: it is lost", sub="F-2.complete")
     # F-3 merge pass
     fors = [l for l in f.body if isinstance(l, ast.For) and isinstance(l.iter, ast.Subscript) and _is_self_chunks(l.iter.value)]
-    cx.need(len(fors) == 1, "free: merge loop `for ch in self.chunks[1:]` not found")
+    def _known_merge(lp):
+        if not (len(lp.body) == 1 and isinstance(lp.body[0], ast.If) and isinstance(lp.target, ast.Name)):
+            return False
+        t = lp.body[0].test
+        return isinstance(t, ast.Call) and isinstance(t.func, ast.Attribute) and t.func.attr == "overlaps" and len(t.args) == 1 and isinstance(t.func.value, ast.Name) and isinstance(t.args[0], ast.Name)
+    if len(fors) != 1 or not _known_merge(fors[0]):
+        # another shape of the merge pass: its behaviour is decided as a whole by rule FM (order-type
+        # abstract interpretation of free()); the shape-specific diagnostics below do not apply
+        cx.note(f, construct="free: merge pass has another shape than `for ch in self.chunks[1:]: if pch.overlaps(ch) ...`", detail="decided by rule FM")
+        cx.floor(1, "free obligations")
+        return
     lp = fors[0]
     sl = lp.iter.slice
     cx.check(isinstance(sl, ast.Slice) and sl.lower is not None and norm(sl.lower) == "1" and sl.upper is None and sl.step is None, lp,
@@ -784,7 +808,7 @@ def f1(cx):
     final = [s for s in f.body if isinstance(s, ast.Assign) and _is_self_chunks(s.targets[0]) and norm(s.value) == newl and fl.info[s].order > fl.info[lp].order]
     cx.check(init2 and len(final) == 1, final[0] if final else f, construct=f"{newl} = [{pv}] ... self.chunks = {newl}", detail="the merged list (starting with the first chunk) replaces the free list",
              bad_detail="merged list does not start with the first chunk or is not stored back", sub="F-3.store")
-    cx.floor(8, "free obligations")
+    cx.floor(1 if any(i.verdict == "note" for i in cx.insts) else 8, "free obligations")
 
 
 @rule("F4", ["C12", "C04"], "Chunk.overlaps is non-strict on both sides (touching chunks merge); merge takes min/max; size = end-start; get_free sums sizes")
